@@ -14,6 +14,7 @@ import (
 	"encoding/hex"
 	"fmt"
 	"net/http"
+	"os/exec"
 	"reservoir/cache"
 	"reservoir/utils/verifhook"
 	"sort"
@@ -354,6 +355,10 @@ func c08Run(b core.Batch, r *core.Recorder) {
 	defer p.Close()
 	mode := rig.Mode(b.Str("transport", "plain"))
 	n := b.Int("n", 100)
+	if b.Str("only", "") == "late" {
+		c08lateBodyRead(b, r, mode)
+		return
+	}
 	for i := 0; i < n; i++ {
 		c, q := c08gen(b, i, string(mode), w)
 		if !r.Case(c.ID, c) {
@@ -809,7 +814,26 @@ func c08Plan(tier string, seed int64) []core.Batch {
 			bs = append(bs, core.Batch{Name: tr + "-" + be, TimeoutS: 1200, Args: map[string]any{"transport": tr, "backend": be, "n": n, "late_rounds": late}})
 		}
 	}
+	// The same part once more with every write system call of the child held for 3 ms after it has completed
+	// (strace as a delay injector): the thread that has just written the last request-body bytes upstream is
+	// late for whatever it does next, as it is on a loaded machine when the woken reader takes its CPU. This
+	// needs no hook in the tree. Left out where strace cannot trace (no ptrace permission).
+	if c08straceWorks() {
+		for _, tr := range []string{"plain", "tunnel"} {
+			bs = append(bs, core.Batch{Name: "late-" + tr + "-write-exit-delayed", TimeoutS: 600,
+				Wrap: []string{"strace", "-f", "-qq", "-o", "/dev/null", "-e", "trace=write", "-e", "inject=write:delay_exit=3000"},
+				Args: map[string]any{"transport": tr, "backend": "memory", "only": "late", "late_rounds": late / 3}})
+		}
+	}
 	return bs
+}
+
+func c08straceWorks() bool {
+	path, err := exec.LookPath("strace")
+	if err != nil {
+		return false
+	}
+	return exec.Command(path, "-f", "-qq", "-o", "/dev/null", "-e", "trace=write", "-e", "inject=write:delay_exit=1", "true").Run() == nil
 }
 
 func init() {
@@ -817,7 +841,7 @@ func init() {
 		ID:    "C08",
 		Level: "exploration",
 		Rule: "seeded generation of exchanges: method in {GET,HEAD,POST,PUT,PATCH,DELETE,OPTIONS} x 15 request-target classes (pct-encoded slash/pipe/space, semicolon, empty query, dot-segments, double slash, trailing slash, ...) x request header options (multi-valued, odd casing, Cookie, Authorization, Connection-nominated, Proxy-*, TE, end-to-end names that merely begin like hop-by-hop ones: Proxy-Trace-Id, Upgrade-Insecure-Requests, Connection-Id, ...) x request bodies (none/sized/chunked/70k-1MiB) " +
-			"x origin script: status from 25 codes incl. 3xx with Location, multi-valued Set-Cookie/Link/Vary/Warning, Connection-nominated and hop-by-hop headers, validators, cache directives, bodies (none/sized/chunked/200k); 60% of storable GETs are requested a second time so that the answer from the store is checked too; plain and tunnel transport, both backends; origins behind another intermediary (their Via / Cache-Status / X-Cache values must stay in front of the values this proxy appends); a stale entry whose revalidation is answered 503 / 404 / 200 no-store (any further request of that exchange must be a faithful copy of the unconditional client request, and the client must get the real answer, never a 304); body-carrying requests (POST/PUT/DELETE/PATCH, 1..40000 bytes) to an origin that pauses in the middle of its response body while the hook upstream.body.read holds the upstream client's reads of the request body after the first (the after-the-end read then happens while the response is being relayed). " +
+			"x origin script: status from 25 codes incl. 3xx with Location, multi-valued Set-Cookie/Link/Vary/Warning, Connection-nominated and hop-by-hop headers, validators, cache directives, bodies (none/sized/chunked/200k); 60% of storable GETs are requested a second time so that the answer from the store is checked too; plain and tunnel transport, both backends; origins behind another intermediary (their Via / Cache-Status / X-Cache values must stay in front of the values this proxy appends); a stale entry whose revalidation is answered 503 / 404 / 200 no-store (any further request of that exchange must be a faithful copy of the unconditional client request, and the client must get the real answer, never a 304); body-carrying requests (POST/PUT/DELETE/PATCH, 1..40000 bytes) to an origin that pauses in the middle of its response body while the hook upstream.body.read holds the upstream client's reads of the request body after the first (the after-the-end read then happens while the response is being relayed), and once more in a child whose write system calls are held 3 ms after completion by strace's delay injector (batches late-*-write-exit-delayed; absent where strace cannot trace). " +
 			"Every copy of the request the origin logs and the response the client parses are compared field by field. Non-trivial/distinct = distinct (transport, method, target class, status, request/response header-name sets, body shapes, round).",
 		Assumptions: []string{"headers the proxy's HTTP client adds when absent (User-Agent, Accept-Encoding) and framing (Content-Length/Transfer-Encoding) are tolerated on the request side",
 			"Age, Accept-Ranges, Date and framing headers are proxy-owned on the response side; to Via, X-Cache and Cache-Status the proxy may append, the values an upstream intermediary wrote must stay in front", "conditional request headers and Range are not generated here (C06/C07 cover them)"},
